@@ -404,6 +404,18 @@ func c02Gen(t *rapid.T) C02Case {
 	nm := rapid.SampledFrom([]int{0, 1, 1, 1, 2, 2, 3}).Draw(t, "nmatchers")
 	for i := 0; i < nm; i++ {
 		m := datagen.GenMatcher(t, fields, "sel")
+		if i > 0 && rapid.IntRange(0, 3).Draw(t, "same-label-again") == 0 {
+			// The same label (and often the same operator) once more with another value.
+			prev := c.Sel[rapid.IntRange(0, len(c.Sel)-1).Draw(t, "again-of")]
+			for _, f := range fields {
+				if f.Name == prev.Label {
+					m = datagen.GenMatcher(t, []datagen.Field{f}, "sel-again")
+				}
+			}
+			if rapid.Bool().Draw(t, "again-same-op") && (prev.Op == "=" || prev.Op == "!=") {
+				m.Op = prev.Op
+			}
+		}
 		if (m.Op == "=~" || m.Op == "!~") && rapid.IntRange(0, 2).Draw(t, "substring-re") == 0 {
 			// A regex that matches only a proper substring of some value (anchoring).
 			var f datagen.Field
